@@ -1,6 +1,20 @@
 """Per-property metadata used by the runner (levels, explanations)."""
 
 PROPS = {
+    "C05": {
+        "level": "other",
+        "explanation": "read-path and write-path locksets on all paths: must-held lock classes (incl. caller "
+                       "context) at every blob open, key-map access, append and apply site",
+        "not_decided": "the linearizability judgement on returned values",
+    },
+    "C15": {
+        "level": "proof",
+        "explanation": "lock-order graph over an over-approximation of all paths (may-held locksets incl. caller "
+                       "context, drop glue and bound callbacks) is acyclic without self-edges; no blocking wait "
+                       "is reachable from the API; guards do not escape or leak",
+        "not_decided": "calls into the key type's Clone/Ord/Debug under locks; a caller keeping an "
+                       "IndexReadGuard while writing (outside the contract)",
+    },
     "C19": {
         "level": "proof",
         "explanation": "validate-before-touch on the open root: must-happened-before SETTINGS_LOADED at every "
